@@ -100,6 +100,13 @@ KNOWN_WITNESSES_2 = [
     (False, "{{ '4611686018427387904' | date: '%Y' }}{{ x | date: '%Y' }}", {"x": str(2 ** 62)}), (False, "{{ x | json: y }}", {"x": {"a": 1}, "y": 2 ** 62}),
     (False, "{{ 10e4299 }}{% for x in (10e4299..10e4299) %}{% endfor %}", {}), (False, "{% cycle 'a${-100e4298}', 1 %}", {}),
     (False, "{% for x in 1000e4297 %}{% endfor %}", {}), (False, "{{ 10e4298 }}{{ \"${-1e4298}\" }}", {}),
+    (False, "{{ '<![foo[x]]>' | strip_html }}{{ x | strip_html }}", {"x": "a<b>c</b><![if x]>d<![endif]><![bar[y]]>"}),
+    (False, "{{ x | datetime: format: 'g' }}", {"x": datetime.datetime(2020, 1, 1)}),
+    (False, "{{ x | datetime }}", {"x": 1, "datetime_format": "yyyy ggg RR"}),
+    (False, "{% include 'base' for r %}", {"r": range(10 ** 30)}), (False, "{% include 'base' with r %}", {"r": range(10 ** 30)}),
+    (False, "{% render 'base' for r %}{% render 'base' with r %}", {"r": range(10 ** 30)}),
+    (False, "{{ x | round: y }}{{ 7 | round: z }}", {"x": {"a": 1}, "y": -(2 ** 62), "z": -(10 ** 30)}),
+    (False, '{{ "\\u12\ud800 4" }}', {}), (False, "{{ a['\\u\udc00abc'] }}", {}),
     (True, "{% tablerow i in (1..3) cols: x %}{{ i }}{% endtablerow %}", {"x": [1]}),
     (True, "{% tablerow i in (1..3) cols: x %}{{ i }}{% endtablerow %}", {"x": None}),
     (True, "{% tablerow i in (1..3) cols: nosuch %}{{ i }}{% endtablerow %}", {}),
@@ -611,6 +618,32 @@ def mixed_api_stream(chk: C.Check, r: Any, stats: dict[str, int]) -> None:
                             signal.alarm(0)
                 finally:
                     loop.close()
+        # caching loaders that key their cache on a render-context variable: any value may sit under that name
+        for value in (10 ** 5000, -(10 ** 5000), "a", "", 1.5, float("nan"), None, True, [1], {"a": 1}, range(3)):
+            for mk2 in (lambda: CachingDictLoader(dict(G2.MIXED_TEMPLATES), namespace_key="ns"),
+                        lambda: CachingFileSystemLoader(root, namespace_key="ns")):
+                env = Environment(loader=mk2())
+                stats["mixed_api_steps"] = stats.get("mixed_api_steps", 0) + 1
+                for step in ("get_template(globals)", "render", "render_async"):
+                    signal.alarm(10)
+                    try:
+                        if step == "get_template(globals)":
+                            env.get_template("sub/part.liquid", globals={"ns": value}).render()
+                        elif step == "render":
+                            env.from_string("{% include 'sub/part.liquid' %}{% render 'sub/part.liquid' %}").render(ns=value)
+                        else:
+                            asyncio.run(env.from_string("{% include 'sub/part.liquid' %}").render_async(ns=value))
+                    except LiquidError as e:
+                        check_exception(chk, e, "namespaced caching loader", {"namespace": safe_repr(value)}, stats)
+                    except BaseException as e:  # noqa: BLE001
+                        signal.alarm(0)
+                        stats["python_exceptions"] += 1
+                        chk.finding(f"PyExc {type(e).__name__} @ {L.innermost(e)}",
+                                    f"{step} with {safe_repr(value)[:40]} under the loader's namespace_key raised {type(e).__name__} ({str(e)[:60]})",
+                                    {"namespace_key": "ns", "value": safe_repr(value), "step": step, "templates": G2.MIXED_TEMPLATES,
+                                     "stream": "mixed sync/async API on a caching loader"})
+                    finally:
+                        signal.alarm(0)
     finally:
         shutil.rmtree(root, ignore_errors=True)
 
